@@ -1,4 +1,5 @@
 """JSON <-> message dict / configuration codec for scenarios and replay files."""
+import copy
 import datetime
 import decimal
 
@@ -38,12 +39,18 @@ def cfg_from_json(c):
     """'packaged' -> None (library default); dict -> bit_config dict"""
     if c is None or c == "packaged":
         return None
-    return c
+    # always a private copy: the code under test must never be able to write into scenario data
+    return copy.deepcopy(c)
 
 
 def packaged_bit_config():
-    from . import sut
-    return sut.load()["config"].config["bit_config"]
+    """snapshot of the packaged configuration taken when the code under test is first loaded; the
+    oracles use this copy so that a SUT which writes into its global configuration cannot move them"""
+    global _PKG
+    if _PKG is None:
+        from . import sut
+        _PKG = copy.deepcopy(sut.load()["config"].config["bit_config"])
+    return _PKG
 
 
 def effective_cfg(c):
